@@ -22,7 +22,10 @@ StepN(M, st) ==
       m  == st.act.ms[1]
       p  == R.peer[c0]
       reqs == {j \in 1..Len(out) : out[j].ev = "app_req"}
-      vBase == {"base_protocol_message_handed_to_application" : j \in {k \in reqs : out[k].m.cmd # "APP"}}
+      \* ... neither as a request, nor as an unexpected answer, nor as the answer a blocked sender receives
+      vBase == {"base_protocol_message_handed_to_application" : j \in {k \in reqs : out[k].m.cmd # "APP"}} \cup
+               {"base_protocol_message_handed_to_application:as_answer" : j \in {k \in 1..Len(out) :
+                    (out[k].ev = "app_ans" /\ out[k].m.cmd # "APP") \/ (out[k].ev = "req_result" /\ out[k].r \in {"base:257", "base:280", "base:282"})}}
       deliv == {j \in reqs : Key(out[j].m) = Key(m)}
       answers == {j \in 1..Len(out) : out[j].ev = "tx" /\ out[j].c = c0 /\ ~out[j].m.req /\ Key(out[j].m) = Key(m)}
       app == Applicable(m, p)
